@@ -111,22 +111,21 @@ func c18Cluster(name string, amax, cmax int32) *proxyv1alpha1.UpstreamCluster {
 // longer than the margin the generator keeps around the 3 s boundary, the ages the pass saw are not
 // the virtual ones: such a run is discarded and the case is run again from scratch (the decision
 // depends only on the measured overrun, never on what was observed).
-const clockMargin = 100 * time.Millisecond
+const clockMargin = 40 * time.Millisecond
 
-// A virtual age a is realised as a real age in (a - clockBias, a - clockBias + clockMargin): virtual ages
-// are multiples of 100 ms, so "older than 3 s" comes out exactly as in the virtual arithmetic, also
-// for an age of exactly 3 s (time.After is strict), as long as no age lies within (3000, 3150) ms,
-// which the generator excludes.
-const clockBias = 150 * time.Millisecond
+// A virtual age a (always a multiple of 100 ms) is realised as a real age in
+// (a - clockBias, a - clockBias + clockMargin) = (a - 50 ms, a - 10 ms): "older than 3 s" therefore comes
+// out exactly as in the virtual arithmetic — 3000 ms is not a timeout (time.After is strict), 3100 ms is.
+const clockBias = 50 * time.Millisecond
 
 func runC18(raw json.RawMessage) interface{} {
-	for attempt := 0; attempt < 60; attempt++ {
+	for attempt := 0; attempt < 200; attempt++ {
 		obs, overrun := runC18Once(raw)
 		if !overrun {
 			return obs
 		}
 	}
-	panic("virtual clock overrun in 60 consecutive attempts")
+	panic("virtual clock overrun in 200 consecutive attempts")
 }
 
 func runC18Once(raw json.RawMessage) (interface{}, bool) {
